@@ -280,6 +280,17 @@ def gen_arr(rng):
     return ['arr', kind, shape, vals]
 
 
+def _eqkey(spec):
+    '''Key under which Python itself would merge two members of a set / keys of a dict (1 == True == 1.0): such members are
+    not generated together, which of them survives is an artefact of insertion order (mixed numeric types, see ASSUMPTIONS).'''
+    t = spec[0]
+    if t in ('int', 'npint', 'bool', 'float'):
+        return ('num', complex(spec[1]))
+    if t == 'complex':
+        return ('num', complex(spec[1], spec[2]))
+    return ('other', core.canon(spec_key(spec)))
+
+
 def _py_hashable(spec):
     t = spec[0]
     if t in ('list', 'dict', 'nd'):
@@ -300,10 +311,10 @@ def gen_spec(rng, depth=0):
     if r < 0.42:
         return [rng.choice(['tuple', 'tuple', 'list']), [gen_spec(rng, depth + 1) for _ in range(rng.choice([0, 1, 2, 3]))]]
     if r < 0.5:
-        items = {core.canon(spec_key(s)): s for s in (gen_leaf(rng) for _ in range(rng.choice([0, 1, 2, 3]))) if s[0] not in ('arr', 'nd')}
+        items = {_eqkey(s): s for s in (gen_leaf(rng) for _ in range(rng.choice([0, 1, 2, 3]))) if s[0] not in ('arr', 'nd')}
         return [rng.choice(['fset', 'fmset']), list(items.values())]
     if r < 0.58:
-        ks = {core.canon(spec_key(s)): s for s in (gen_leaf(rng) for _ in range(rng.choice([0, 1, 2, 3]))) if s[0] in ('int', 'str', 'bytes', 'none')}
+        ks = {_eqkey(s): s for s in (gen_leaf(rng) for _ in range(rng.choice([0, 1, 2, 3]))) if s[0] in ('int', 'str', 'bytes', 'none')}
         kind = rng.choice(['dict', 'fdict'])
         items = [[k, gen_spec(rng, depth + 1)] for k in ks.values()]
         if kind == 'fdict':
@@ -431,11 +442,17 @@ def _valid(spec):
     if t in ('tuple', 'list'):
         return all(_valid(x) for x in spec[1])
     if t in ('fset', 'fmset'):
+        byeq = {}
+        for x in spec[1]:
+            if byeq.setdefault(_eqkey(x), core.canon(spec_key(x))) != core.canon(spec_key(x)):
+                return False
         return all(_py_hashable(x) and _valid(x) for x in spec[1])
-    if t == 'dict':
-        return all(_py_hashable(k) and _valid(v) for k, v in spec[1])
-    if t == 'fdict':
-        return all(_py_hashable(k) and _py_hashable(v) and _valid(v) for k, v in spec[1])
+    if t in ('dict', 'fdict'):
+        byeq = {}
+        for k, v in spec[1]:
+            if byeq.setdefault(_eqkey(k), core.canon(spec_key(k))) != core.canon(spec_key(k)):
+                return False
+        return all(_py_hashable(k) and (t == 'dict' or _py_hashable(v)) and _valid(v) for k, v in spec[1])
     if t in ('P', 'S', 'D', 'V'):
         return all(_py_hashable(x) and _valid(x) for x in spec[2:])
     return True
